@@ -147,6 +147,7 @@ public:
   std::mutex log_mutex;   // (C12) items running on several threads may log at the same time
   void log(std::string const &message) override
   {
+    if (!logos && quiet) return;    // nothing to write: take no lock (a lock here would order the threads for TSan)
     std::lock_guard<std::mutex> g(log_mutex);
     if (logos) (*logos) << message;
     if (!quiet) std::cerr << "colvars: " << message;
